@@ -800,7 +800,7 @@ def export_case(rng, tables, version):
     lossless = rng.random() < 0.6
     ex = (LosslessExporter if lossless else gen.Exporter)(rng, tables, rng.random() < 0.85)
     if lossless:
-        # the generic data path draws protocol values from the named ones; 145 (-> 255) is the lossy one
+        # protocol bytes 145..254 decode as Unknown (-> 255 on re-export): the lossy ones
         tables_ok = set(n for n in tables.proto_parse_ok if n <= 144 or n == 255)
         ex.t = tables
         saved = tables.proto_parse_ok
@@ -822,7 +822,7 @@ class C09(Prop):
                   "exactly the bytes consumed; template and options-template records re-export exactly for every accepted input; the flowset envelope is "
                   "id, length, body; re-export of parser output never panics (C01). C09_packet_roundtrip: EVERY V9 packet parse_bytes "
                   "reports whose decoded values are of the lossless kinds re-exports to exactly the bytes it occupied (any flowset mix, padding, cached "
-                  "templates). The lossy kinds (durations, MAC addresses, strings, signed integers held as I32, protocol 145) are the known-finding "
+                  "templates). The lossy kinds (durations, MAC addresses, strings, signed integers held as I32, protocol bytes 145..254, which decode as Unknown) are the known-finding "
                   "classes, each with a refuting witness.")
     level_note = "classes K_C09_* are defined by exact_dtype (Coq) and mirrored in tools/oracle.py; packet-level composition by correspondence"
     partial = ""
@@ -897,7 +897,7 @@ class C13(Prop):
                   "of the flows of the non-error packets. C13_v9_protocol_and_times (after repair 39ac76d): a V9 record's protocol (decoded as a name) and "
                   "first/last switched (decoded as durations) reach the view as the protocol's number and name and the millisecond counts; "
                   "C13_field_anchors pins the projected names to their RFC 3954 / IANA element numbers. Known classes (crate deviations, witness "
-                  "C13_refuted): protocol byte 145 (Unknown keeps no number), durations of 2^32 ms or more, ports of width other than 2, IPFIX one "
+                  "C13_refuted): protocol bytes 145..254 (Unknown keeps no number), durations of 2^32 ms or more, ports of width other than 2, IPFIX one "
                   "flow per field.")
     level_note = "the V9/IPFIX theorems describe the selection the conversion performs on what the decoders produce; the deviations from the property are classes K_C13_*"
     rule = ("conformant sequences of 1-4 packets (templates with random subsets and orders of the projected fields, both address families), sometimes "
